@@ -40,7 +40,7 @@ import (
 	"strings"
 )
 
-const version = "hazards-v7"
+const version = "hazards-v8"
 
 var scopeDirs = []string{"app", "x", "adapter", "syscontracts", "types", "ibc"}
 
@@ -555,6 +555,15 @@ func (w *walker) visit(n ast.Node) bool {
 		if id, ok := n.Fun.(*ast.Ident); ok {
 			if _, isB := w.info.Uses[id].(*types.Builtin); isB && id.Name == "close" {
 				w.add("chan-op", "close")
+			}
+		}
+		// cosmos-sdk typed events: v0.45.2 TypedEventToEvent builds the attribute list by ranging over a Go map
+		if sel, ok := n.Fun.(*ast.SelectorExpr); ok {
+			if obj, ok := w.info.Uses[sel.Sel].(*types.Func); ok && obj.Pkg() != nil && obj.Pkg().Path() == "github.com/cosmos/cosmos-sdk/types" {
+				switch obj.Name() {
+				case "EmitTypedEvent", "EmitTypedEvents", "TypedEventToEvent":
+					w.add("sdk-typed-event", "sdk."+obj.Name()+" (attribute order = map iteration order in cosmos-sdk v0.45.2)")
+				}
 			}
 		}
 		// json.Marshal & friends on a value whose type contains a map: ordered by key (deterministic) — a note
